@@ -46,7 +46,7 @@ partial def jItem : Item → Json
       ("evs", Json.arr (evs.map fun e => Json.arr #[toJson e.name, toJson e.old, toJson e.new, jType e.type, toJson e.what]).toArray),
       ("flush", Json.bool fl), ("snap", jInts snap), ("ch", Json.arr (ch.map jItem).toArray), ("res", jRes res)]
   | .stmt k p old new b tr regs ch res => Json.mkObj [("t", "stmt"), ("k", Json.str k), ("p", toJson p),
-      ("old", toJson old), ("new", toJson new), ("b", Json.bool b), ("tr", Json.bool tr), ("regs", jNats regs),
+      ("old", toJson old), ("new", toJson new), ("b", Json.bool b), ("tr", Json.bool tr), ("regs", Json.arr (regs.map (fun k => jNats [k.1, k.2])).toArray),
       ("ch", Json.arr (ch.map jItem).toArray), ("res", jRes res)]
 
 def jSlots (n : Nat) (w : World) : Json :=
@@ -77,7 +77,9 @@ partial def parseItem (j : Json) : Except String Item := do
     return .call (← getNat j "w") evs (← getBool j "flush") (← (← getArr j "snap").toList.mapM (·.getInt?)) ch res
   | _ =>
     return .stmt (← getStr j "k") (← getNat j "p") (← getInt j "old") (← getInt j "new") (← getBool j "b")
-      (← getBool j "tr") (← (← getArr j "regs").toList.mapM (·.getNat?)) ch res
+      (← getBool j "tr") (← (← getArr j "regs").toList.mapM (fun k => do
+          let a ← k.getArr?
+          return ((← a[0]!.getNat?), (← a[1]!.getNat?)))) ch res
 
 partial def parsePV (j : Json) : Except String PV := do
   let items (k : String) : Except String (List PV) := do (← getArr j k).toList.mapM parsePV
@@ -142,12 +144,14 @@ def handle (req : Json) : Except String Json := do
     | _ => []
   let cfg : Cfg := { bounds := bounds, bodies := bodies, events := events }
   let vals ← (← getArr case "init").toList.mapM (·.getInt?)
-  let regs ← (← getArr case "watchers").toList.mapM parseWatcher
+  let regs0 ← (← getArr case "watchers").toList.mapM parseWatcher
+  -- the Watcher objects made by the harness before the program starts: identities 0, 1, …
+  let regs := regs0.zipIdx.map (fun (wt, i) => { wt with uid := i })
   let prog ← (← getArr case "program").toList.mapM parseStmt
   let prop := (getStr case "prop").toOption.getD "C03"
   let fuel := 1000000
   -- top-level statements, each under the harness's try/except, world observed after each
-  let w0 : World := { vals := vals, regs := regs, batch := false, trigger := false, events := [], queued := [],
+  let w0 : World := { vals := vals, regs := regs, batch := false, trigger := false, events := [], queued := [], nreg := regs.length,
                       slotKeys := regs.flatMap (fun wt => if wt.what = 0 then [] else wt.params.map (fun p => (p, wt.what))) }
   let (_, revSteps, revRuns) := prog.foldl (fun (acc : World × List Json × List (World × Res × World × List Item)) s =>
       let (w, l, rs) := acc
@@ -156,6 +160,10 @@ def handle (req : Json) : Except String Json := do
                          ("slots", jSlots cfg.nparams w')] ++ jWorld w') :: l,
         (w, r, w', o) :: rs)) (w0, [], [])
   let model := Json.mkObj [("steps", Json.arr revSteps.reverse.toArray)]
+  -- the harness gave up on the implementation after too many callback invocations: how many does the model make?
+  if (req.getObjVal? "calls_only").toOption == some (Json.bool true) then
+    let last := match revRuns.head? with | some (_, _, w', _) => w'.ncalls | none => 0
+    return Json.mkObj [("ncalls", toJson last), ("oof", Json.bool (revRuns.any fun (_, r, _, _) => r == Res.oof))]
   -- oracle on the implementation's observation
   let impl ← req.getObjVal? "impl"
   let implSteps ← (← getArr impl "steps").toList.mapM fun st => do
